@@ -1,7 +1,7 @@
 //! Hand-written decoders from `arbitrary::Unstructured` to the structured cases of C12/C13/C14
 //! (derive(Arbitrary) is not available offline). Used by the libFuzzer target `filter_ops` and by
 //! the replay of its artifacts.
-use crate::props::{c12, c13, c14, c15, c16};
+use crate::props::{c02, c09, c10, c12, c13, c14, c15, c16};
 use crate::support::td::Scale;
 use crate::support::filters::{FCfg, KeySpec, RngSpec};
 use crate::support::hashers::HKind;
@@ -180,4 +180,60 @@ pub fn c16(u: &mut Unstructured) -> Result<c16::Case> {
         });
     }
     Ok(c16::normalise(c16::Case { scale, delta, backlog, ops, weight_exp, value_exp }))
+}
+
+// ---------------------------------------------------------------- sketches (libFuzzer target `sketch_ops`)
+// Decoders stay inside the parameter ranges of the proptest strategies of C02, C09 and C10.
+
+pub fn c02(u: &mut Unstructured) -> Result<c02::Case> {
+    let w = if u.int_in_range(0u8..=7)? == 0 { [100usize, 127, 128, 255, 272, 1000, 3000][u.int_in_range(0usize..=6)?] } else { u.int_in_range(1usize..=64)? };
+    let d = u.int_in_range(1usize..=8)?;
+    let ctype = [c02::CType::U8, c02::CType::U16, c02::CType::U32, c02::CType::U64, c02::CType::Usize][u.int_in_range(0usize..=4)?];
+    let hk = hkind(u)?;
+    let uni = universe(u, 24)?;
+    let n = u.int_in_range(0usize..=100)?;
+    let mut ops = Vec::with_capacity(n);
+    for _ in 0..n {
+        ops.push(match u.int_in_range(0u8..=14)? {
+            0..=7 => c02::Op::Add(u.arbitrary()?),
+            8..=11 => c02::Op::AddN(u.arbitrary()?, if u.arbitrary::<bool>()? { u.int_in_range(0u16..=63)? } else { u.arbitrary()? }),
+            12 | 13 => {
+                let m = u.int_in_range(0usize..=9)?;
+                c02::Op::Merge((0..m).map(|_| Ok((u.arbitrary::<u16>()?, if u.arbitrary::<bool>()? { u.int_in_range(0u16..=63)? } else { u.arbitrary()? }))).collect::<Result<Vec<(u16, u16)>>>()?)
+            }
+            _ => c02::Op::Clear,
+        });
+    }
+    Ok(c02::Case { w, d, ctype, hk, universe: uni, ops })
+}
+
+fn small_stream(u: &mut Unstructured, max_len: usize) -> Result<Vec<u16>> {
+    let alphabet = [1u16, 2, 3, 5, 11, 29, 199][u.int_in_range(0usize..=6)?];
+    let n = u.int_in_range(0usize..=max_len)?;
+    (0..n).map(|_| u.int_in_range(0u16..=alphabet)).collect()
+}
+
+pub fn c09(u: &mut Unstructured) -> Result<c09::Case> {
+    let ctor = if u.int_in_range(0u8..=2)? == 0 {
+        c09::Ctor::Epsilon([0.5f64, 0.34, 1.0 / 3.0, 0.25, 0.2, 0.1, 0.01, 0.003, 0.002, 0.999][u.int_in_range(0usize..=9)?])
+    } else {
+        c09::Ctor::Width(u.int_in_range(1usize..=40)?)
+    };
+    let stream = c09::Stream::Explicit(small_stream(u, 300)?);
+    let eps = match ctor {
+        c09::Ctor::Epsilon(e) => e,
+        c09::Ctor::Width(w) => 1.0 / w as f64,
+    };
+    let nt = u.int_in_range(0usize..=3)?;
+    let mut thresholds = (0..nt).map(|_| Ok(u.arbitrary::<u16>()? as f64 / 65535.0)).collect::<Result<Vec<f64>>>()?;
+    thresholds.push(eps);
+    thresholds.push((2.0 * eps).min(1.0));
+    Ok(c09::Case { ctor, stream, thresholds })
+}
+
+pub fn c10(u: &mut Unstructured) -> Result<c10::Case> {
+    let k = u.int_in_range(1usize..=8)?;
+    let (w, d) = [(1usize, 1usize), (2, 1), (1, 2), (3, 2), (4, 2), (16, 2), (64, 4), (4096, 4)][u.int_in_range(0usize..=7)?];
+    let extend_chunk = if u.int_in_range(0u8..=4)? == 0 { u.int_in_range(1u16..=40)? } else { 0 };
+    Ok(c10::Case { k, w, d, stream: c10::Stream::Explicit(small_stream(u, 200)?), extend_chunk })
 }
